@@ -828,6 +828,10 @@ impl<T: Transport, Env: UtpEnvironment> VirtualSocket<T, Env> {
             }
             PopExpiredProbe::NotExpired => {
                 trace!("MTU probe hasnt expired yet");
+                // Nothing gets segmented while the probe is outstanding, but whatever was written
+                // since then is still unsent: keep the count fresh so that FIN isn't sent ahead of it.
+                self.this_poll.unsegmented_data =
+                    tx_len.saturating_sub(self.user_tx_segments.total_len_bytes());
                 return Ok(());
             }
             PopExpiredProbe::Empty => {}
